@@ -15,6 +15,7 @@ def case_strategy(draw):
     prog["key"] = draw(st.integers(0, 2**31 - 1))
     prog["flag_repr"] = draw(st.sampled_from(["arr", "py"]))
     prog["idx_repr"] = draw(st.sampled_from(["arr", "py"]))
+    prog["picks"] = draw(st.lists(st.tuples(st.integers(0, 50), st.integers(0, 99).map(lambda i: i / 100.0), st.sampled_from([None, True, False])).map(list), min_size=0, max_size=3))
     return prog
 
 
@@ -53,6 +54,23 @@ def check_case(case, ctx=None):
     for p, _name in gfi.all_paths(node):
         if p not in visited and gfi.chm_get(chm, p) is not None:
             raise Violation("extra-address", f"choice map holds a value at {p} which the execution did not visit", case)
+    # traces made by importance (plain and mask-wrapped constraint values) carry the exact joint density too
+    casg, wire = {}, {}
+    for i, u, mf in case.get("picks", []):
+        if run.visited:
+            p = run.visited[i % len(run.visited)]
+            name, params = run.dist_info[p]
+            v = gfi.value_for(name, params, u)
+            wire[p] = v if mf is None else ("mask", v, {"v": bool(mf), "repr": "arr"})
+            if mf is not False:
+                casg[p] = v
+            else:
+                casg.pop(p, None)
+    if wire:
+        tri, _w = gf.importance(key, gfi.build_chm(wire, "or"), jargs)
+        gfi.check_trace_against_model(tri, node, nargs, dict(casg), "importance-trace:", case, Violation, allow_fresh=True)
+        if ctx is not None:
+            ctx.count("importance-trace" + (":masked-values" if any(m is not None for _i, _u, m in case["picks"]) else ""))
     # assess on the trace's own values (values fed back as a freshly built choice map)
     asg = run.assignment()
     sample = gfi.build_chm(asg, style=case.get("chm_style", "or"))
